@@ -125,7 +125,7 @@ def rec_spec():
     return base_spec(extra=[(0x4301, "M", [ROOT, (0, None)]), (0x4302, "U", [ROOT, (1, 1), SUB]), (0x4303, "I", [ROOT, (0, 2), 0x4301])])
 
 
-def random_spec(rng, globals_mid=True):
+def random_spec(rng, globals_mid=True, multi=False):
     used = {CRC, VOID}
 
     def new_id():
@@ -175,6 +175,24 @@ def random_spec(rng, globals_mid=True):
                 # intermediate placeholder followed by a named master
                 (m2, p2) = rng.choice(masters)
                 entries.append((new_id(), rng.choice("UISBF"), p + [m, (lo, hi), m2]))
+    if multi and masters:
+        # paths with several placeholders (only used where asked for: C11)
+        def ph():
+            lo = rng.choice([None, None, 0, 1, 2])
+            hi = rng.choice([None, None, None, 1, 2, 3])
+            if hi is not None and lo is not None and hi < lo:
+                hi = lo
+            if hi == 0:
+                hi = 1
+            return (lo, hi)
+        for _ in range(rng.choice([1, 2, 3])):
+            (m, p) = rng.choice(masters)
+            (m2, p2) = rng.choice(masters)
+            shape = rng.choice(["g/m/g", "p/g/m/g", "g/m/g/m", "p/g/m/g/m"])
+            path = ([] if shape.startswith("g") else p + [m]) + [ph(), m2, ph()]
+            if shape.endswith("/m"):
+                path.append(rng.choice(masters)[0])
+            entries.append((new_id(), rng.choice("UISBFM"), path))
     rng.shuffle(entries)
     entries += [(CRC, "B", [(1, None)]), (VOID, "B", [(None, None)])]
     return Spec(entries)
